@@ -2,6 +2,7 @@ package props
 
 import (
 	"fmt"
+	"math"
 
 	"pipelined.dev/signal"
 	"verifharness/core"
@@ -100,6 +101,27 @@ func runC14(c *core.Ctx) {
 	}
 	c.Floor("views_with_samples", 1)
 	c.Floor("retained_view_checks_after_growth", 50)
+}
+
+// extremeVal is the lowest (neg) or highest value of the element type; for
+// floats -Inf / +Inf.
+func extremeVal(t *dyn.TypeInfo, neg bool) dyn.Val {
+	switch t.Kind {
+	case dyn.KInt:
+		if neg {
+			return dyn.IntVal(t.MinI())
+		}
+		return dyn.IntVal(t.MaxI())
+	case dyn.KUint:
+		if neg {
+			return dyn.UintVal(0)
+		}
+		return dyn.UintVal(t.MaxU())
+	}
+	if neg {
+		return dyn.FloatVal(math.Inf(-1))
+	}
+	return dyn.FloatVal(math.Inf(1))
 }
 
 func c14Retained(c *core.Ctx, t *dyn.TypeOps, ch, l, k int, caseID string) {
@@ -261,11 +283,27 @@ func c14Case(c *core.Ctx, t *dyn.TypeOps, ch, k, s, e int, caseID string) {
 			c.Obs("reads", 1)
 			// write
 			v := mon.Canary(t.TypeInfo, pos+i*7+cc, 555+i)
+			switch (i + cc) % 7 { // value classes: zero, type bounds, non-finite floats
+			case 3:
+				v = t.FromInt(0)
+			case 4:
+				v = extremeVal(t.TypeInfo, false)
+			case 5:
+				v = extremeVal(t.TypeInfo, true)
+			case 6:
+				if t.Kind == dyn.KFloat {
+					v = dyn.FloatVal(math.NaN())
+				}
+			}
 			if p, msg := core.Guard(func() { view.SetSample(i, v) }); p {
 				c.Violate(inst+"|panic", caseID, "SetSample panicked: "+msg, d)
 				continue
 			}
-			w.Expect(pos, v)
+			if cell := w.B.RawAt(pos); v.K == dyn.KFloat && math.IsNaN(v.F) && math.IsNaN(cell.F) {
+				w.Expect(pos, cell) // a NaN was stored; its payload is not compared
+			} else {
+				w.Expect(pos, v)
+			}
 			if ps := a.Verify(); len(ps) > 0 {
 				report(c, inst+"|write", caseID, ps, d)
 				// resynchronise so one fault is not reported for every later step
@@ -278,7 +316,7 @@ func c14Case(c *core.Ctx, t *dyn.TypeOps, ch, k, s, e int, caseID string) {
 			c.Obs("arena_cells_verified", int64(len(a.Shadow)))
 			if p, msg := core.Guard(func() { got = view.Sample(i) }); p {
 				c.Violate(inst+"|panic", caseID, "Sample panicked: "+msg, d)
-			} else if !got.Same(v) {
+			} else if !(got.Same(v) || (v.K == dyn.KFloat && math.IsNaN(v.F) && math.IsNaN(got.F))) {
 				c.Violate(inst+"|readback", caseID, fmt.Sprintf("wrote %v through view index %d, read back %v", v, i, got), d)
 			}
 		}
